@@ -7,6 +7,7 @@ from ..interp import Arr, Pose, Obj, ClassRef, VFile, PathRaise, PI
 from ..algebra import run_obligation, run_tasks, record, ObFail, CDIM
 from ..g2o import VOCABULARY, eq_poly, same_vertex, same_edge, same_param, mark_int, no_int_through_float
 from .c13 import read_line, READERS
+from .c18 import distinct_names_hook
 
 LEVEL = "other"
 
@@ -154,18 +155,27 @@ def file_obligation(variant):
                 poly.unit_quaternion(tuple("f%d" % (base + i) for i in unit))
             return [Poly.var("f%d" % (base + i)) for i in range(n)]
 
+        def vtoks(n, unit=None):
+            """tokens of a vertex / parameter line: the first one is an id (an opaque, distinct name)"""
+            t = toks(n, unit)
+            t[0] = Poly.var("id%d" % counter[0])
+            mark_int(it, t[0])
+            return t
+
         def junk(s):
             lines.append(s)
         junk_count = 0
-        pvals = toks(8, unit=(4, 5, 6, 7))
-        p2vals = toks(4)
-        v_se2a, v_xy, v_se3, v_xyz, v_se2b = toks(4), toks(3), toks(8, unit=(4, 5, 6, 7)), toks(4), toks(4)
+        pvals = vtoks(8, unit=(4, 5, 6, 7))
+        p2vals = vtoks(4)
+        v_se2a, v_xy, v_se3, v_xyz, v_se2b = vtoks(4), vtoks(3), vtoks(8, unit=(4, 5, 6, 7)), vtoks(4), vtoks(4)
+        v_lonely1, v_lonely2 = vtoks(3), vtoks(8, unit=(4, 5, 6, 7))       # vertices that no edge refers to
         seq = [("PARAMS_SE3OFFSET", pvals), ("junk", "# a comment line" + end), ("VERTEX_SE2", v_se2a), ("blank", end),
-               ("VERTEX_XY", v_xy), ("junk", "FIX 0" + end), ("VERTEX_SE3:QUAT", v_se3), ("blank", "   " + end),
+               ("VERTEX_XY", v_xy), ("junk", "FIX 0" + end), ("VERTEX_SE3:QUAT", v_se3), ("blank", "   " + end), ("VERTEX_XY", v_lonely1),
                ("VERTEX_TRACKXYZ", v_xyz), ("EDGE_SE2", [v_se2b[0], v_se2a[0]] + toks(3 + 6)), ("junk", "VERTEX_SE2_EXTRA 1 2 3 4" + end),
                ("EDGE_SE3_TRACKXYZ", [v_se3[0], v_xyz[0], pvals[0]] + toks(3 + 6)), ("PARAMS_SE2OFFSET", p2vals),
                ("EDGE_SE2_XY", [v_se2a[0], v_xy[0]] + toks(2 + 3)), ("junk", "EDGE_SE2X 1 2" + end),
-               ("EDGE_SE3:QUAT", [v_se3[0], v_se3[0]] + toks(7 + 21, unit=(3, 4, 5, 6))), ("VERTEX_SE2", v_se2b)]
+               ("EDGE_SE3:QUAT", [v_se3[0], v_se3[0]] + toks(7 + 21, unit=(3, 4, 5, 6))), ("VERTEX_SE2", v_se2b),
+               ("VERTEX_SE3:QUAT", v_lonely2)]
         order = []
         for tag, vals in seq:
             if tag == "junk":
@@ -206,7 +216,49 @@ def file_obligation(variant):
         if len(warnings) != junk_count:
             raise ObFail("%d unrecognised lines, %d warnings" % (junk_count, len(warnings)))
         return dict(lines=len(lines), vertices=len(vs), edges=len(es), parameters=len(ps), junk=junk_count, variant=variant)
-    return lambda pkg: run_obligation(pkg, fn, max_paths=256)
+    return lambda pkg: run_obligation(pkg, fn, hook=distinct_names_hook, max_paths=256)
+
+
+def custom_types_obligation():
+    """Registered custom edge types: each is consulted for a line (not only the first one), they are tried before the built-ins,
+    and each accepted line yields exactly one edge, in file order."""
+    def fn(it):
+        it.vfs = {}
+        ida, idb = Poly.var("ida"), Poly.var("idb")
+        mark_int(it, ida, idb)
+        made = []
+
+        def make_type(tag):
+            t = Obj("CustomEdgeType[%s]" % tag, __subclass_of__=["BaseEdge"])
+
+            def from_g2o(line, params=None):
+                if isinstance(line, str) and line.startswith(tag + " "):
+                    e = Obj("BaseEdge", vertex_ids=[ida, idb], information=None, estimate=None, vertices=None, custom_tag=tag)
+                    e.stubs["is_valid"] = lambda: True
+                    made.append(e)
+                    return e
+                return None
+            t.stubs["from_g2o"] = from_g2o
+            return t
+        types = [make_type("CUSTOM_A"), make_type("CUSTOM_B"), make_type("EDGE_SE2")]   # the third one shadows a built-in tag
+        va = [ida] + [Poly.var("a%d" % i) for i in range(3)]
+        vb = [idb] + [Poly.var("b%d" % i) for i in range(3)]
+        lines = [make_line(it, "VERTEX_SE2", va, " ", "\n"), make_line(it, "VERTEX_SE2", vb, " ", "\n"),
+                 "CUSTOM_B 1 2\n", "CUSTOM_A 3 4\n", "CUSTOM_B 5 6\n",
+                 make_line(it, "EDGE_SE2", [ida, idb] + [Poly.var("w%d" % i) for i in range(9)], " ", "\n")]
+        it.vfs["c.g2o"] = VFile("c.g2o", lines)
+        g = it.call_classmethod(ClassRef("Graph"), "from_g2o", ["c.g2o"], dict(custom_edge_types=types))
+        es = g.fields.get("_edges")
+        tags = [e.fields.get("custom_tag") for e in es]
+        want = ["CUSTOM_B", "CUSTOM_A", "CUSTOM_B", "EDGE_SE2"]
+        if tags != want:
+            raise ObFail("lines of registered custom edge types %s were read as %s (each registered type must be consulted, in file order, "
+                         "before the built-in readers)" % (want, tags))
+        warnings = [e for e in it.events if e[0] == "log"]
+        if warnings:
+            raise ObFail("%d supported lines were reported as unsupported" % len(warnings))
+        return dict(custom_types=3, edges=len(es))
+    return lambda pkg: run_obligation(pkg, fn, hook=distinct_names_hook)
 
 
 def loaders_obligation():
@@ -290,6 +342,9 @@ def run(run_, pkg, tier):
         key = "C14-P4/Graph.from_g2o/%s" % variant
         if run_.wants(key):
             tasks.append((key, "C14-P4-one-object-per-line", file_obligation(variant), "%s:%d" % (gfn._gs_module, gfn.lineno)))
+    key = "C14-P4/Graph.from_g2o/custom-edge-types"
+    if run_.wants(key):
+        tasks.append((key, "C14-P4-custom-edge-types", custom_types_obligation(), "%s:%d" % (gfn._gs_module, gfn.lineno)))
     key = "C14-P6/load.py"
     if run_.wants(key):
         lf = pkg.funcs.get("load_g2o")
@@ -298,6 +353,6 @@ def run(run_, pkg, tier):
         else:
             tasks.append((key, "C14-P6-sibling-loaders", loaders_obligation(), "%s:%d" % (lf._gs_module, lf.lineno)))
     record(run_, tasks, run_tasks(pkg, tasks))
-    run_.floor("C14 obligations", len(tasks) if run_.only is None else 23, 23)
+    run_.floor("C14 obligations", len(tasks) if run_.only is None else 24, 24)
     if run_.only is None:
         prefix_rule(run_, pkg)
